@@ -313,8 +313,14 @@ func bufClass(n int) string {
 
 // wordSalad: random words over a random alphabet separated by punctuation.
 func wordSalad(r *gen.Rand, n int) []byte {
+	return wordSaladAlpha(r, n, r.Pick(3, 4, 4, 5, 8, r.Range(2, 60)))
+}
+
+// wordSaladAlpha: the same over an alphabet of alpha letters (small alphabets
+// give 2-4-bit literal codes, so literal+match pairs fit the decoder's packed
+// table entries).
+func wordSaladAlpha(r *gen.Rand, n, alpha int) []byte {
 	nw := r.Range(5, 200)
-	alpha := r.Range(2, 60)
 	words := make([][]byte, nw)
 	for i := range words {
 		w := make([]byte, r.Range(3, 8))
